@@ -380,8 +380,9 @@ class Report:
         ev = dict(property_id=self.cid, tier=self.tier, seed=self.seed, level=self.level,
                   coverage=self.cov, assumptions=self.assumptions,
                   wall_s=round(time.time() - self.t0, 2), violations=len(self.violations))
-        (VERIF / "evidence").mkdir(exist_ok=True)
-        (VERIF / "evidence" / f"{self.cid}.json").write_text(json.dumps(ev, indent=1, default=str))
+        evd = Path(os.environ.get("VERIF_EVIDENCE_DIR", str(VERIF / "evidence")))   # sub-checks write elsewhere and are merged by their parent
+        evd.mkdir(parents=True, exist_ok=True)
+        (evd / f"{self.cid}.json").write_text(json.dumps(ev, indent=1, default=str))
         for w in self.known_hits:
             print(f"KNOWN-FINDING: property={self.cid} {w}")
         for p, nofail in self.violations:
